@@ -142,6 +142,11 @@ RECURSIVE ApplyMuts(_, _)
 ApplyMuts(cur, muts) == IF Len(muts) = 0 THEN cur ELSE ApplyMuts(ApplyMut(cur, Head(muts)), Tail(muts))
 
 ChangedFields(old, new) == {f \in DOMAIN NullF : new[f] # old[f]}
+\* "Setting a value to None is equivalent to running a CQL DELETE on that column": assigning None (or an empty
+\* collection) deletes the cell even when the instance held no value there
+Nulled(muts, new) == {f \in DOMAIN NullF : new[f] = NullF[f] /\ \E i \in 1..Len(muts) : muts[i].f = f /\ muts[i].op \in {"set", "none"}}
+\* the columns a save writes: the modified ones and the ones explicitly set to None
+Written(I, muts) == LET new == ApplyMuts(I.cur, muts) IN ChangedFields(I.old, new) \cup Nulled(muts, new)
 
 \* ---- queryset update of one keyword on row c
 QsApply(d, c, k) ==
@@ -177,7 +182,7 @@ Touch(op, S) ==
     CASE op.name = "create"   -> RowCells(op.ck) \cup {CellOf(op.ck, f) : f \in op.has} \cup {<<9, "inst">>}
       [] op.name = "qsupdate" -> {CellOf(op.ck, FieldOf(op.sets[i].kw)) : i \in 1..Len(op.sets)}
       [] op.name = "qsdelete" -> IF op.ck = 0 THEN UNION {RowCells(c) : c \in CKs} \cup {<<0, "st">>} ELSE RowCells(op.ck)
-      [] op.name = "isave"    -> {CellOf(S.inst.ck, f) : f \in ChangedFields(S.inst.old, ApplyMuts(S.inst.cur, op.muts))} \cup {<<9, "inst">>}
+      [] op.name = "isave"    -> {CellOf(S.inst.ck, f) : f \in Written(S.inst, op.muts)} \cup {<<9, "inst">>}
       [] OTHER -> {<<9, "inst">>}
 
 -----------------------------------------------------------------------------
@@ -192,7 +197,7 @@ En1(op, S) ==
             /\ LET new == ApplyMuts(S.inst.cur, op.muts) IN
                \* a changed collection is written as the difference to what was read: only meaningful when the row
                \* still holds what was read
-               \A f \in {"s", "l", "m"} : new[f] # S.inst.old[f] => View(S.db, S.inst.ck)[f] = S.inst.old[f]
+               \A f \in {"s", "l", "m"} : new[f] # S.inst.old[f] /\ new[f] # NullF[f] => View(S.db, S.inst.ck)[f] = S.inst.old[f]
       [] op.name = "isaveas"  ->
             /\ S.inst.has
             /\ ~Visible(S.db.rows[3 - S.inst.ck])
@@ -214,7 +219,7 @@ Eff1(op, S) ==
             ELSE S                                            \* DoesNotExist; the application keeps what it has
       [] op.name = "isave" ->
             LET new == ApplyMuts(S.inst.cur, op.muts)
-            IN [db |-> WriteSeq(S.db, S.inst.ck, FieldSeq, ChangedFields(S.inst.old, new), new),
+            IN [db |-> WriteSeq(S.db, S.inst.ck, FieldSeq, Written(S.inst, op.muts), new),
                 inst |-> [S.inst EXCEPT !.cur = new, !.old = new]]
       [] op.name = "isaveas" ->
             LET c == 3 - S.inst.ck
